@@ -160,7 +160,7 @@ def _open_post(ctx):
     sig = _current["sig"] or (kind, keep, dup, tuple(t["class"] for t in doc["tiers"]), tuple(len(t["entries"]) for t in doc["tiers"]))
     import base64
 
-    case = {"call": "open", "file_b64": base64.b64encode(raw).decode("ascii") if len(raw) < 20000 else None, "keep": keep, "dup": dup, "rmode": rm}
+    case = {"call": "open", "file_b64": base64.b64encode(raw).decode("ascii") if len(raw) < 20000 else None, "ext": (os.path.basename(str(ctx.arg(0, "fnFullPath"))).split(".", 1) + [""])[1], "keep": keep, "dup": dup, "rmode": rm}
     mech = {"layout_kind": kind[0], "text_format": kind[0] == "text", "keyword": data_kw, "exc": type(ctx.exc).__name__ if ctx.exc else None}
     if ok:
         REC.held("open", sig if any(t["entries"] for t in doc["tiers"]) else None, classes, case)
@@ -255,7 +255,11 @@ def workload(tier, rng, shard, nshards, work):
                     extra_cls = extra_cls + ["C03:short:blank-before-line-break"]
                 if nl == "CRLF":
                     text = text.replace("\n", "\r\n")
-                fn = os.path.join(str(work), "f%d.%s" % (i % 5, "json" if "json" in lay else "TextGrid"))
+                # (what a file holds is decided by its content: a JSON textgrid may be called x.TextGrid, a text one x.txt)
+                ext = ("json" if "json" in lay else "TextGrid") if rng.random() < 0.8 else rng.choice(["TextGrid", "txt", "json", "JSON", "tg.bak", "textgrid"])
+                fn = os.path.join(str(work), "f%d.%s" % (i % 5, ext))
+                if ext not in ("json", "TextGrid"):
+                    extra_cls = extra_cls + ["C03:unusual-file-extension"]
                 with open(fn, "wb") as fd:
                     fd.write(PT.encode(text, enc))
                 keep = rng.random() < 0.5
@@ -317,7 +321,7 @@ def replay(v, work):
     if c.get("file_b64") is None:
         return
     raw = base64.b64decode(c["file_b64"])
-    fn = os.path.join(str(work), "replay.json" if raw.lstrip()[:1] == b"{" else "replay.TextGrid")
+    fn = os.path.join(str(work), ("replay." + c["ext"]) if c.get("ext") else ("replay.json" if raw.lstrip()[:1] == b"{" else "replay.TextGrid"))
     with open(fn, "wb") as fd:
         fd.write(raw)
     with contextlib.redirect_stdout(io.StringIO()):
